@@ -714,4 +714,56 @@ example : openResult true ⟨true, entityDoc, 5⟩ = none ∧
     classify entityDoc = .entity [101] := by decide +kernel
 example : openResult true ⟨false, entityDoc, 30⟩ = some [60, 114, 47, 62] := by decide +kernel
 
+/-! ## the caller: a file-like source that declares a URL is scanned ITSELF
+
+  Seeded change C13-6 (the defuse decision of open() consults the `url` attribute of the given stream and
+  scans a second resource opened from it) is what these exclude. -/
+
+/-- a file-like source never takes the "double opening" branch, whatever it is and declares -/
+theorem given_never_second_open (v : Variant) (m : Mode) (b : BaseClass) (g : Given) :
+    plan v m b g.chan ≠ .secondOpen := by
+  unfold plan Given.chan Given.selfUrl
+  simp only [Option.isSome_none]
+  repeat' split
+  all_goals simp_all
+
+/-- **given_scan_ignores_declared_url.**  The bytes scanned (and the bytes parsed) do not depend on the
+    URL the object declares nor on what is reachable at any URL. -/
+theorem given_scan_ignores_declared_url (v : Variant) (m : Mode) (b : BaseClass) (web web' : Nat → List Nat)
+    (g : Given) (u : Option Nat) :
+    scanInput v m b web { g with declared := u } = scanInput v m b web' g ∧
+    parseInput v m b { g with declared := u } = parseInput v m b g := by
+  have h1 := given_never_second_open v m b g
+  have hc : Given.chan { g with declared := u } = g.chan := rfl
+  unfold scanInput parseInput
+  rw [hc]
+  cases hp : plan v m b g.chan <;> simp_all
+
+/-- **given_scanned_is_parsed.**  When a stream is given and defusing applies, whatever reaches the
+    parser is exactly what the scan was fed — the content of THAT stream (for a seekable one the
+    whole of it, `open_seekable_whole`). -/
+theorem given_scanned_is_parsed (v : Variant) (m : Mode) (b : BaseClass) (web : Nat → List Nat) (g : Given)
+    (hd : isDefused m b = true) (bs : List Nat) (hp : parseInput v m b g = some bs) :
+    scanInput v m b web g = some bs ∧ bs = g.st.scanned := by
+  have h1 := given_never_second_open v m b g
+  have h2 : plan v m b g.chan ≠ .noDefuse := fun e => by
+    have := (plan_noDefuse_iff v m b g.chan).mp e; simp [hd] at this
+  unfold scanInput
+  unfold parseInput at hp
+  cases hpl : plan v m b g.chan <;> simp_all [open_scanned_eq_parsed]
+
+/-- a source given as a URL: the double opening scans what the same URL delivers (equal to what is parsed
+    as long as the location answers the same twice — the documented limit of that branch) -/
+example (web : Nat → List Nat) (u : Nat) : urlScanInput web u = urlParseInput web u := rfl
+
+/-- the seeded variant scans the content at the declared URL instead of the stream: a non-seekable
+    buffered stream with a custom opener that declares URL 7 (clean content there) while it carries
+    `entityDoc` itself -/
+example :
+    let g : Given := ⟨⟨false, entityDoc, 0⟩, .buffered, true, some 7⟩
+    let web : Nat → List Nat := fun _ => [60, 114, 47, 62]
+    scanInput .repaired .always .absent web g = some entityDoc ∧
+    scanInputSeeded .repaired .always .absent web g = some [60, 114, 47, 62] ∧
+    parseInput .repaired .always .absent g = some entityDoc := by decide +kernel
+
 end XsVerif.Props.C13
